@@ -43,6 +43,10 @@ fn main() {
     sh.finish();
 }
 
+struct FutHandleOnly {
+    handle: Option<ev::PduResponseHandle>,
+}
+
 struct FutH<'a> {
     fut: Pin<Box<ev::ReceiveFrameFut<'a>>>,
     handle: Option<ev::PduResponseHandle>,
@@ -60,6 +64,10 @@ fn run_case<const N: usize>(rng: &mut Rng, sh: &mut Shard, case: u64) {
     let mut created: Vec<ev::CreatedFrame> = vec![];
     let mut futs: Vec<FutH> = vec![];
     let mut received: Vec<ev::ReceivedFrame> = vec![];
+    // futures that have already resolved (value or error) but are kept alive by the caller for a
+    // while, as an enclosing select/join would: they own nothing any more, and dropping them late
+    // - after their former slot went to a new request - must not touch that slot
+    let mut spent: Vec<FutH> = vec![];
     // Responses "on the wire": bytes of every transmission not yet answered.
     let mut wire_q: Vec<Vec<u8>> = vec![];
     let mut last_resp: Option<Vec<u8>> = None;
@@ -100,7 +108,7 @@ fn run_case<const N: usize>(rng: &mut Rng, sh: &mut Shard, case: u64) {
             if have_f { 18 } else { 1 },                                          // tx
             if have_f || !wire_q.is_empty() { 18 } else { 2 },                    // rx
             if have_f { 8 } else { 1 },                                           // time
-            if have_f { 4 } else { 0 },                                           // drop future
+            if have_f || !spent.is_empty() { 4 } else { 0 },                      // drop future (pending or resolved)
             if received.is_empty() { 0 } else { 6 },                              // drop received
         ];
         let bounds = [22u64, 30, 45, 60, 72, 86, 92, 96, 100];
@@ -173,6 +181,13 @@ fn run_case<const N: usize>(rng: &mut Rng, sh: &mut Shard, case: u64) {
                         let fh = futs.swap_remove(i);
                         sh.count("completed");
                         hist.push("ready-ok".into());
+                        let mut fh = fh;
+                        let handle = fh.handle.take();
+                        if rng.bool() {
+                            spent.push(fh);
+                            hist.push("keep-resolved-future".into());
+                        }
+                        let fh = FutHandleOnly { handle };
                         // Either read through first_pdu (consumes the frame) or hold the frame.
                         if let (Some(h), true) = (fh.handle, rng.bool()) {
                             let _ = rf.first_pdu(h);
@@ -181,7 +196,11 @@ fn run_case<const N: usize>(rng: &mut Rng, sh: &mut Shard, case: u64) {
                         }
                     }
                     Poll::Ready(Err(e)) => {
-                        let _fh = futs.swap_remove(i);
+                        let fh = futs.swap_remove(i);
+                        if rng.bool() {
+                            spent.push(fh);
+                            hist.push("keep-resolved-future".into());
+                        }
                         errpath = true;
                         match e {
                             Error::Timeout(_) => {
@@ -290,13 +309,19 @@ fn run_case<const N: usize>(rng: &mut Rng, sh: &mut Shard, case: u64) {
             name = "advance-time";
             vclock::advance_by(*rng.pick(&[50u64, 100, 250, 1000, 5000]));
         } else if op < 96 {
-            name = "drop-future";
-            if !futs.is_empty() {
+            if !spent.is_empty() && (futs.is_empty() || rng.bool()) {
+                name = "drop-resolved-future";
+                let i = rng.usize_below(spent.len());
+                drop(spent.swap_remove(i));
+            } else if !futs.is_empty() {
+                name = "drop-future";
                 let i = rng.usize_below(futs.len());
                 let st = states(pl);
                 sh.count(&format!("future_dropped_in.{}", st.iter().map(|s| state_name(*s)).collect::<Vec<_>>().join(",")).chars().take(60).collect::<String>());
                 drop(futs.swap_remove(i));
                 errpath = true;
+            } else {
+                name = "drop-future";
             }
         } else {
             name = "drop-received";
@@ -313,6 +338,9 @@ fn run_case<const N: usize>(rng: &mut Rng, sh: &mut Shard, case: u64) {
 
     if ok {
         // Drain, then the probe through the public MainDevice API.
+        // resolved futures first: everything else is still owned while they go
+        drop(spent);
+        check!("drop-all-resolved-futures");
         drop(created);
         drop(futs);
         drop(received);
@@ -392,6 +420,7 @@ fn run_case<const N: usize>(rng: &mut Rng, sh: &mut Shard, case: u64) {
         }
     } else {
         std::mem::forget(created);
+        std::mem::forget(spent);
         std::mem::forget(futs);
         std::mem::forget(received);
     }
